@@ -127,6 +127,20 @@ func (P *Prog) FnKey(f *ssa.Function) string {
 }
 
 func (P *Prog) isClover(f *ssa.Function) bool {
+	if f.Pkg == nil && f.Parent() == nil && f.Synthetic != "" {
+		// wrapper / thunk of a promoted or interface method: belongs to the receiver's package
+		if r := f.Signature.Recv(); r != nil {
+			rt := r.Type()
+			if p, ok := rt.(*types.Pointer); ok {
+				rt = p.Elem()
+			}
+			if n, ok := rt.(*types.Named); ok && n.Obj().Pkg() != nil {
+				pp := n.Obj().Pkg().Path()
+				return strings.HasPrefix(pp, modPath) && !strings.Contains(pp, "/examples")
+			}
+		}
+		return false
+	}
 	for g := f; g != nil; g = g.Parent() {
 		if g.Pkg != nil {
 			return strings.HasPrefix(g.Pkg.Pkg.Path(), modPath) && !strings.Contains(g.Pkg.Pkg.Path(), "/examples")
